@@ -140,8 +140,12 @@ func (cs *Case) Expected(partialReeval bool) (out string, ood string) {
 }
 
 // Source prints the definitions with the given layout.
-func (cs *Case) Source(l Layout) string {
+func (cs *Case) Source(l Layout) string { return cs.SourceOpt(l, false) }
+
+// SourceOpt: parenSlice parenthesises slice literals in argument position (tinyfo profile).
+func (cs *Case) SourceOpt(l Layout, parenSlice bool) string {
 	p := NewPrinter(l)
+	p.ParenSliceArgs = parenSlice
 	s := ""
 	for _, d := range cs.Defs {
 		for _, ln := range p.Def(d) {
